@@ -99,6 +99,14 @@ try:
             det[pid]["tail"] = r.stdout[-800:]
     meta["checks"] = det
     meta["quiet"] = all(d["quiet"] for d in det.values())
+    if a.tier != "quick" and os.path.exists(prev):
+        # a deeper tier is recorded next to the quick-tier record, which stays
+        pm = json.load(open(prev))
+        pm["checks_" + a.tier] = det
+        pm["quiet_" + a.tier] = meta["quiet"]
+        pm["ran"] = pm.get("ran", []) + [x for x in meta["ran"] if "--tier " + a.tier in x]
+        meta = pm
+        meta["_tier_run"] = a.tier
 finally:
     run(["git", "-C", "/repo", "worktree", "remove", "--force", wt])
     shutil.rmtree(wt, ignore_errors=True)
@@ -113,5 +121,10 @@ notes = os.path.join(sd, "notes.md")
 if os.path.exists(notes):
     meta["notes"] = open(notes).read()[:1500]
 json.dump(meta, open(os.path.join(out, "meta.json"), "w"), indent=1)
-print(json.dumps({k: meta.get(k) for k in ("name", "baseline_ok", "holds_clean", "holds_patched", "differs_clean",
-                                           "differs_patched", "quiet", "checks")}, indent=1))
+t = meta.pop("_tier_run", None)
+if t:
+    json.dump(meta, open(os.path.join(out, "meta.json"), "w"), indent=1)
+    print(json.dumps({"name": meta["name"], "tier": t, "quiet": meta["quiet_" + t], "checks": meta["checks_" + t]}, indent=1))
+else:
+    print(json.dumps({k: meta.get(k) for k in ("name", "baseline_ok", "holds_clean", "holds_patched", "differs_clean",
+                                               "differs_patched", "quiet", "checks")}, indent=1))
